@@ -4,7 +4,11 @@ Tie: E1 — random circuits (1-3 structural classes x 1-12 nodes, per-node param
 class, sparse/dense/permutation/fan-out edge patterns, self-connections, fan-in from several classes, parallel edges,
 polynomial dyadic equations) compiled by the real PyRates with vectorize=True and vectorize=False; the vector field at
 random dyadic states (and Euler trajectories through CircuitTemplate.run for a subset) is compared, as exact rationals
-and inside Coq, with Impl (must agree everywhere, Err classes included) and with Spec (must agree under the guards)."""
+and inside Coq, with Impl (must agree everywhere, Err classes included) and with Spec (must agree under the guards).
+A fraction of the edges is written WITHOUT a 'weight' entry (default 1; D46).  Kind `perm`: >= 10 one-to-one edges covering
+a whole vector in permuted order (identity test of _get_indexed_var_str).  Stream `multiop` (NOT model-tied: node types
+with several operators, structurally identical ones under different names included; real vec vs real non-vec vs a python
+unit-level sum, no Coq Impl)."""
 import json, os
 from fractions import Fraction as Fr
 from core import *
@@ -719,11 +723,15 @@ def check(ctx):
                    rule="random circuits: 1-3 structural classes x 1-12 nodes in shuffled order, per-node parameter values on one shared operator "
                         "template per class, polynomial dyadic equations (degree <= 3), optional algebraic output variable, edge patterns: random density "
                         "0.05-1.0, >= 10 edges with distinct targets (indexed branch), single-unit fan-out to 9-12 units (D32 boundary), self-connections, "
-                        "fan-in from several classes, parallel edges; each compiled with vectorize=True and False (default backend, float64), vector field at "
+                        "fan-in from several classes, parallel edges, edges without a weight entry mixed with weighted ones in one group (both orders), "
+                        ">= 10 one-to-one edges covering a whole vector in permuted order (ends fixed / last fixed / identity / arbitrary); "
+                        "multiop stream (not model-tied): node types of 1-3 S operators + 1 M operator, structurally identical operators under "
+                        "different names, types differing only in operator multiplicity, compared vec vs non-vec vs python sum; each compiled with vectorize=True and False (default backend, float64), vector field at "
                         "2 random dyadic states (+ Euler trajectories through run() for the linear subset); a circuit is non-trivial when some class has >= 2 "
                         "nodes and receives >= 1 edge; distinct = distinct canonical JSON",
                    samples=[sample], extra=dict(input_distribution=hist, impl_vs_model_mismatches=len(badI), impl_vs_spec_mismatches=len(badS),
-                                                guards=GUARDS, unmodelled=[RAW_GUARD + " (D23: algebraic source variable that depends on its own input; "
+                                                guards=GUARDS, unmodelled=["multi-operator node types: compared on the real code only (vec vs non-vec vs python unit-level sum); guard " + MO_GUARD,
+                                                            RAW_GUARD + " (D23: algebraic source variable that depends on its own input; "
                                                                            "raw witness compared vec vs non-vec only)"]),
                    trusted_base=["numpy float64 arithmetic is exact on the generated dyadic data (results are compared as exact rationals, no tolerance)",
                                  "unit positions in the merged state vector are read from the compiled template's own maps "
